@@ -12,6 +12,7 @@ INVARIANT LawRecord
 INVARIANT LawRecordHash
 INVARIANT LawTransitive
 INVARIANT LawCarrier
+INVARIANT LawRelCarrier
 INVARIANT LawCarrierPair
 INVARIANT LawCarriedRd
 INVARIANT LawCarriedRec
@@ -21,6 +22,7 @@ INVARIANT EmitCharStr
 INVARIANT EmitRdata
 INVARIANT EmitRecord
 INVARIANT EmitCarrier
+INVARIANT EmitRelCarrier
 INVARIANT EmitCarrierPair
 INVARIANT EmitCarriedRd
 INVARIANT EmitCarriedRec
